@@ -98,7 +98,7 @@ CLAIMED = {
   ref="DESIGN.md §3 C11"),
  "C12": dict(
   technique="static analysis: decision tables by abstract interpretation of go/ssa (every adapter method), sibling comparison, structural rules",
-  text="Extracts the level -> backend-operation table of every caldav/carddav adapter method (Mkcol, Delete, Options, HeadGet, Put; PropFind is C11's scope table) with the classified level as an atom, checks that the path handed to the backend is r.URL.Path itself, that foreign principal/home-set paths expose nothing, that every adapter literal gets the trimmed prefix, that the two packages' tables are equal up to renaming (except the recorded DELETE difference), and that the client's discovery steps return the decoded href's path. The segment-counting arithmetic of resourceTypeAtPath over all prefixes and spellings is run-time string arithmetic: not decided (not applicable for that clause). Also the PROPFIND scope tables of both adapters (shared with C11.scope): nothing of the current user is emitted for a foreign principal or home-set path.",
+  text="Extracts the level -> backend-operation table of every caldav/carddav adapter method (Mkcol, Delete, Options, HeadGet, Put; PropFind is C11's scope table) with the classified level as an atom, checks that the path handed to the backend is r.URL.Path itself, that foreign principal/home-set paths expose nothing, that every adapter literal gets the trimmed prefix, that the two packages' tables are equal up to renaming (except the recorded DELETE difference), and that the client's discovery steps return the decoded href's path. The segment-counting arithmetic of resourceTypeAtPath over all prefixes and spellings is run-time string arithmetic: not decided (not applicable for that clause). Also the PROPFIND scope tables of both adapters (shared with C11.scope): nothing of the current user is emitted for a foreign principal or home-set path. The classifier itself is decided as a shape: clean, take the prefix off, ensure a leading slash; root for \"/\", else the number of segments (path.Clean, TrimPrefix, Split uninterpreted).",
   note="Trusted: go/ssa; resourceTypeAtPath classifies by depth below the prefix.",
   ref="DESIGN.md §3 C12"),
 }
